@@ -46,6 +46,13 @@ CHECKS['C09'] = dict(
     note='Trusted: the acceptance rule as written in ddv/checks/c09.py from the property statement. Explicit --timeout 120 keeps machine load from turning runs into timeouts (timeouts are C10).',
     design='3/C09')
 
+CHECKS['C14'] = dict(
+    level='exploration', engine='ENUM',
+    technique='bounded-exhaustive enumeration of option sequences x theory-presence inputs through the real parser, detection and pass construction, against a fold model',
+    text='The option alphabet is generated from the mutator registry (123 letters: every --<m>, --no-<m>, --<group>, --no-<group>, --disable-all). All sequences of length <=2 x inputs declaring subsets of the five detectable theories (all 32 subsets for length <=1, 12 quick / 32 thorough for length 2, plus alternative declaration forms), all (group-level, any, group-level) triples, and a VERIF_SEED-rotated slice of the remaining triples (thorough: all 1.86 M triples) go through the real options.parse_options, mutators.auto_detect_theories, strategy_ddmin.ddmin_passes and strategy_hierarchical.get_passes; the classes in the pass lists must be exactly what a fold over the sequence plus the detection rule of the statement predicts (no disabled mutator anywhere, last hierarchical pass = enabled set, ddmin = enabled set minus BinaryReduction). Registry sanity: every class resolves, every option sets the flag the lookup reads, no shared options.',
+    note='Trusted: fold/detection model in ddv/checks/c14.py. "Declares something of a theory" is read as the code reads it (result sort of a declaration / a datatype declaration); functions mentioning a theory only in parameter sorts are not generated. The traced-run clause (mutator names of tested candidates) is checked by the SCHED executions of C01/C02.',
+    design='3/C14')
+
 ENGINES = [
     dict(name='ENUM', path='ddv/sexp.py', serves_properties=['C07', 'C08', 'C09', 'C11', 'C12', 'C13', 'C14', 'C16', 'C17'],
          kind_free_text='bounded-exhaustive enumerators (trees, DAG sharing patterns, lexeme sequences, option sequences) + independent reference models'),
